@@ -551,9 +551,9 @@ func eval(f *frame, e *Expr) any {
 		}
 		return c.v
 	case "add":
-		// the compiler flattens parenthesised nested additions into one left-to-right chain
-		// (compile/ast/folder.go commutative): a + (b + c) checks a + b before c is evaluated
-		ops := foldAddOperands(addOperands(e, nil))
+		// the compiler flattens parenthesised nested additions into one left-to-right chain and
+		// merges their literals: a + (b + c) checks a + b before c is evaluated
+		ops := foldAdd(e)
 		acc := eval(f, ops[0])
 		for _, o := range ops[1:] {
 			v := eval(f, o)
@@ -592,40 +592,60 @@ func eval(f *frame, e *Expr) any {
 	panic("?")
 }
 
-func addOperands(e *Expr, out []*Expr) []*Expr {
-	if e.kind == "add" {
-		return addOperands(e.b, addOperands(e.a, out))
+// foldAdd: the operand chain the compiler really evaluates for a (nested, parenthesised) addition.
+// The folder works bottom-up (compile/ast/folder.go commutative): at each `a + b` a number literal
+// 0 is dropped, other literals are added into the position of the first one, an operand that is
+// itself a folded addition is spliced in as it is (its own literal is not merged again), a chain
+// left with one non-constant operand gets `+ 0` back, and an addition of literals only is a
+// literal. Values are unaffected (exact integers); the order in which operands are evaluated and
+// checked is.
+func foldAdd(e *Expr) []*Expr {
+	var pre, post []*Expr
+	var k *int
+	keep := func(x *Expr) {
+		if k == nil {
+			pre = append(pre, x)
+		} else {
+			post = append(post, x)
+		}
 	}
-	return append(out, e)
-}
-
-// foldAddOperands: what the folder (commutative) does to the flattened chain — literal zeros are
-// dropped, the other number literals are added into the position of the first one, and a chain
-// left with a single non-constant operand gets `+ 0` back. Values are unaffected (exact integers),
-// but the order in which operands are evaluated and checked is.
-func foldAddOperands(ops []*Expr) []*Expr {
-	first, sum := -1, 0
-	var out []*Expr
-	for _, o := range ops {
-		if o.kind != "num" {
-			out = append(out, o)
+	for _, it := range []*Expr{e.a, e.b} {
+		if it.kind == "add" {
+			ops := foldAdd(it)
+			if !(len(ops) == 1 && ops[0].kind == "num") {
+				for _, o := range ops {
+					keep(o)
+				}
+				continue
+			}
+			it = ops[0]
+		}
+		if it.kind == "num" {
+			if it.n == 0 {
+				continue
+			}
+			if k == nil {
+				v := it.n
+				k = &v
+			} else {
+				*k += it.n
+			}
 			continue
 		}
-		if o.n == 0 {
-			continue
-		}
-		if first == -1 {
-			first = len(out)
-			out = append(out, o)
-		}
-		sum += o.n
+		keep(it)
 	}
-	if first != -1 {
-		out[first] = &Expr{kind: "num", n: sum}
-	} else if len(out) <= 1 {
-		out = append(out, &Expr{kind: "num", n: 0})
+	if k != nil {
+		out := append([]*Expr{}, pre...)
+		out = append(out, &Expr{kind: "num", n: *k})
+		return append(out, post...)
 	}
-	return out
+	switch len(pre) {
+	case 0:
+		return []*Expr{{kind: "num", n: 0}}
+	case 1:
+		return []*Expr{pre[0], {kind: "num", n: 0}}
+	}
+	return pre
 }
 
 func refRun(s *Scope, arg int) (res string) {
